@@ -1,5 +1,5 @@
 (* C13 — Key IDs are the spec's hash of the key's PASERK text, stable, domain-separated. *)
-From PV Require Import Bytes Result Base64 Text TextProofs Oracle Keys KeysProofs ToyOracle.
+From PV Require Import Bytes Result Base64 Text TextProofs Oracle Keys KeysProofs KeysProofs2 ToyOracle.
 Local Open Scope list_scope.
 
 (* the id is, by definition of the model (mirroring KeyId::from and IdVersion::hash_key), the 33-byte digest
@@ -11,11 +11,14 @@ Proof. intros O b k obj text H. unfold key_id. rewrite H. reflexivity. Qed.
 Theorem C13_id_is_33_bytes : forall O, laws O -> forall b k obj id, key_id O b k obj = Ok id -> length id = 33.
 Proof. exact key_id_len. Qed.
 
-(* the two backends of a version compute the same id from the same key object *)
-Theorem C13_v3_backends_same_id : forall O k obj, key_encode O B3 k obj = key_encode O B3A k obj -> key_id O B3 k obj = key_id O B3A k obj.
-Proof. intros O k obj H. unfold key_id, key_to_text. rewrite H. reflexivity. Qed.
-Theorem C13_v4_backends_same_id : forall O k obj, key_encode O B4 k obj = key_encode O B4S k obj -> key_id O B4 k obj = key_id O B4S k obj.
-Proof. intros O k obj H. unfold key_id, key_to_text. rewrite H. reflexivity. Qed.
+(* the two backends of a version give the same id to the same SERIALISED key, whenever both accept it (the
+   key objects themselves differ: ed25519-dalek keeps the 32-byte seed, libsodium the 64 stored bytes) *)
+Theorem C13_v3_backends_same_id : forall O bs k o1 o2,
+  key_decode O B3 k bs = Ok o1 -> key_decode O B3A k bs = Ok o2 -> key_id O B3 k o1 = key_id O B3A k o2.
+Proof. exact v3_backends_same_id. Qed.
+Theorem C13_v4_backends_same_id : forall O bs k o1 o2,
+  key_decode O B4 k bs = Ok o1 -> key_decode O B4S k bs = Ok o2 -> key_id O B4 k o1 = key_id O B4S k o2.
+Proof. exact v4_backends_same_id. Qed.
 
 (* ids round-trip through their text form *)
 Theorem C13_id_text_roundtrip : forall O, laws O -> forall b k obj id,
@@ -34,12 +37,15 @@ Proof.
   destruct (Nat.eqb_spec (length d) 33); [|discriminate]. intros E; inversion E; subst. assumption.
 Qed.
 
-(* stable: the id is a function of the key object, so every input that decodes to the same key (PEM or DER,
-   clone, serialise and parse) has the same id *)
-Theorem C13_id_stable : forall O b k bs bs' obj,
-  key_decode O b k bs = Ok obj -> key_decode O b k bs' = Ok obj ->
-  (obj' <- key_decode O b k bs ;; key_id O b k obj') = (obj' <- key_decode O b k bs' ;; key_id O b k obj').
-Proof. exact key_id_of_decoded. Qed.
+(* stable: serialising an accepted key and parsing it back gives the same key object, hence the same id
+   (v1: "the RSA parser returns canonical DER unchanged" is a fact about that parser — correspondence only) *)
+Theorem C13_id_stable_across_serialisation : forall O, laws O ->
+  (forall sd, ed_pk_weak (ed_pk O sd) = false) ->
+  (forall bs pk, p384_parse O bs = Some pk -> compressed_tag pk = true) ->
+  forall b k bs0 obj bs obj',
+  b <> B1 -> key_decode O b k bs0 = Ok obj -> key_encode O b k obj = Ok bs -> key_decode O b k bs = Ok obj' ->
+  obj' = obj /\ key_id O b k obj' = key_id O b k obj.
+Proof. exact key_id_stable_across_serialisation. Qed.
 
 (* domain separation: lid / sid / pid hash different strings; equal ids exhibit a collision *)
 Theorem C13_domain_separated : forall b k k' text text',
@@ -59,7 +65,7 @@ Print Assumptions C13_v3_backends_same_id.
 Print Assumptions C13_v4_backends_same_id.
 Print Assumptions C13_id_text_roundtrip.
 Print Assumptions C13_id_text_33.
-Print Assumptions C13_id_stable.
+Print Assumptions C13_id_stable_across_serialisation.
 Print Assumptions C13_domain_separated.
 Print Assumptions C13_equal_ids_are_collisions.
 
